@@ -155,9 +155,9 @@ Scripts == <<
   \*    fluff tx 20 (same output 102) enters the public pool; 2 is then refused both ways; stem chain 16 -> 17: fluff 21
   \*    (same output 126 as 16) throws 16 out while 17 now spends the 126 of 21; block {20}
   <<StemSub({2}), Sub({20}), Sub({2}), StemSub({2}), StemSub({16}), StemSub({17}), Sub({21}), Blk({20}), StemSub({2})>>,
-  \* 10: the same collisions, fluff first: stem 20 refused on top of public 2, and as fluff; stem 21, then fluff 16
+  \* 10: the same collisions, fluff first: stem 2 refused on top of public 20, and as fluff; stem 21, then fluff 16
   \*    (same output 126) throws it out; a BLOCK holding 21 (no kernel, no input in common with the pool) throws out 16
-  <<Sub({2}), StemSub({20}), Sub({20}), StemSub({21}), Sub({16}), Blk({21}), Sub({17})>>
+  <<Sub({20}), StemSub({2}), Sub({2}), StemSub({21}), Sub({16}), Blk({21}), Sub({17})>>
 >> \o (IF ShortReorg THEN <<
   \* 11: a heavier but shorter fork lowers the height: the spend of coinbase 5 admitted at maturity is immature again
   <<Blk({}), Blk({}), Sub({14}), Sub({10}), Rg(2, <<{}>>), Sub({19}), Blk({}), Sub({14})>> >> ELSE <<>>)
